@@ -3,14 +3,20 @@
 (* of one kind (`focus', chosen at the start) so that the depth bound is       *)
 (* spent on sequences of writes and reads of the same values.                  *)
 EXTENDS Attribute
-CONSTANTS MaxDepth, FocusKinds, DAccs, DAttrs, DRanges, DVTs, Calls,
-          ORanges, OVTs      \* the index ranges / value classes tried on attributes other than Value
+CONSTANTS MaxDepth, FocusKinds, DAccs, DAttrs, DVTs, Calls,
+          DPairs, DOdd,      \* index ranges tried on Value: <<lo, hi>> pairs and other strings ("" = none, "2:1", "1,2", "a")
+          DRel,              \* ... and these ranges relative to the length of the value the call is applied to (names of RelPair)
+          OPairs, OOdd, OVTs \* the index ranges / value classes tried on attributes other than Value
 VARIABLES depth, focus
 dvars == <<depth, focus>>
 DInit == Init /\ depth = 0 /\ focus \in FocusKinds
+LenOf(v) == IF v.a \/ v.t \in {"String", "ByteString"} THEN Len(v.v) ELSE 4
+RangesFor(attr, acc) ==
+  IF attr = "Value" THEN {One(p[1], p[2]) : p \in DPairs} \cup {Odd(x) : x \in DOdd} \cup Rel(DRel, LenOf(Cur(focus, acc)))
+  ELSE {One(p[1], p[2]) : p \in OPairs} \cup {Odd(x) : x \in OOdd}
 DNext ==
   /\ depth < MaxDepth /\ depth' = depth + 1 /\ UNCHANGED focus
-  /\ \E acc \in DAccs, attr \in DAttrs : \E r \in (IF attr = "Value" THEN DRanges ELSE ORanges) :
+  /\ \E acc \in DAccs, attr \in DAttrs : \E r \in RangesFor(attr, acc) :
        \/ "Write" \in Calls /\ \E vt \in (IF focus = "none" THEN {"same", "null"} ELSE VTs(focus)) \cap (IF attr = "Value" THEN DVTs ELSE OVTs) :
                                    Write(focus, acc, attr, r, vt)
        \/ "Read" \in Calls /\ Read(focus, acc, attr, r)
